@@ -120,7 +120,8 @@ def full(n=16, checks=None):
                         return
                 res, err = runner.call_worker(
                     {'check': prop, 'seed': seed, 'tier': 'quick',
-                     'indices': idxs, 'run_timeout': 600}, shadow_dir, hs,
+                     'indices': idxs, 'run_timeout': 600, 'isolate': True},
+                    shadow_dir, hs,
                     1800)
                 dg = None
                 for r in res:
